@@ -8,7 +8,7 @@ def _hook_commits():
     except Exception:
         return []
 
-CLAIMED_IDS = ['C01', 'C02', 'C03', 'C04', 'C05', 'C06', 'C07', 'C08', 'C09', 'C10', 'C11', 'C12', 'C13', 'C14', 'C15', 'C16']
+CLAIMED_IDS = ['C01', 'C02', 'C03', 'C04', 'C05', 'C06', 'C07', 'C08', 'C09', 'C10', 'C11', 'C12', 'C13', 'C14', 'C15', 'C16', 'C17']
 
 HOOKS = {
     'guard': 'cargo feature `verif` (cfg(feature = "verif"))',
@@ -80,8 +80,11 @@ CLAIMED = {
             'note': B_NOTE, 'technique': 'symbolic execution of rustc MIR + z3 (SMT), cvc5 cross-check, native replay of counterexamples'},
 }
 
+CLAIMED['C17'] = {'engine': 'engine-b-mirse', 'design_ref': 'DESIGN.md section 4 C17',
+                  'text': 'sequential mechanism only, flock itself by contract (lock_file fails while another handle holds the lock): DB::open requests the database lock before recovery, log creation, manifest edit and file removal, and fails without any of them when the lock is held (O17.1); destroy_database removes nothing before it holds the lock, refuses when it is held, removes the lock file last (O17.2); dropping a database announces shutdown, waits for its background work and only then gives up the lock (O17.3)',
+                  'note': B_NOTE + '; the flock(2) semantics of the fs2 FFI call and every race between threads or handles (racing opens after a close, open during close) are OUTSIDE the claim: the check decides the order of operations inside open / destroy_database / drop, nothing else; a violation is replayed on the disk file system with a second open and a destroy against a live instance', 'technique': TECH + '; event-order monitor over MIR paths'}
+
 _NOT_YET = 'obligations for this property are designed (DESIGN.md section 4) but not yet registered in this commit'
 NOT_APPLICABLE = {pid: _NOT_YET for pid in []}
-NOT_APPLICABLE['C17'] = 'the mechanism is flock(2) through the fs2 FFI on a real file descriptor plus racing threads; neither engine has a model of flock or of threads, and a contract "lock_file returns anything" decides nothing'
 
 NOTES = 'See DESIGN.md. Exit codes of ./check: 0 held (KNOWN-FINDING lines for recorded defects), 1 VIOLATION, 2 inconclusive (tool limit or non-reproducing counterexample; never reported as held).'
